@@ -6,9 +6,17 @@
 (*   embedded names, separates everything else;                                *)
 (*   Dedup is idempotent, order-preserving, has one record per group, the      *)
 (*   minimum TTL, and never merges records that are not duplicates.            *)
+(* Mode "ext": two more dimensions in which records differ --                  *)
+(*   a LIST in the RDATA (texts, type bitmaps, prefixes, parameters, options,  *)
+(*   names ...) whose elements are dropped / repeated: records whose lists     *)
+(*   differ in LENGTH -- in particular one list a proper prefix of the other,  *)
+(*   or empty -- are not duplicates, in either order;                          *)
+(*   every single BIT of the fixed header: a difference in any one bit of the  *)
+(*   16-bit type or class separates two records (no bit of the class is a      *)
+(*   flag that equality ignores), a difference in any bit of the TTL does not. *)
 EXTENDS Dup
 
-CONSTANTS Mode,      \* "pairs" (full universe) | "triples" (reduced universe) | "lists"
+CONSTANTS Mode,      \* "pairs" (full universe) | "triples" (reduced universe) | "lists" | "ext"
           MaxList
 
 VARIABLES x
@@ -44,9 +52,40 @@ WithOwner(r, sh) == [r EXCEPT !.o = IF r.o = <<97>> THEN Shapes[sh][1] ELSE IF r
 ListOfS(q, sh) == [i \in 1..Len(q) |-> ToText(WithOwner(Sym[q[i]], sh))]
 ListOf(q) == ListOfS(q, 1)
 
+-----------------------------------------------------------------------------
+(* Mode "ext", lists.  A list variant is a sequence of element numbers of a    *)
+(* base list <<1, .., n>>: every subsequence (elements dropped anywhere: at    *)
+(* the end -- a proper prefix --, at the front, in the middle, all of them)    *)
+(* and the base list with its last / its first element once more at the end.   *)
+RECURSIVE SubSeqs(_)
+SubSeqs(s) == IF s = <<>> THEN { <<>> }
+              ELSE LET r == SubSeqs(Tail(s)) IN r \cup { <<Head(s)>> \o q : q \in r }
+Iota(n) == [i \in 1..n |-> i]
+LVars(n) == SubSeqs(Iota(n)) \cup { Iota(n) \o <<n>>, Iota(n) \o <<1>> }
+IsProperPrefix(p, q) == Len(p) < Len(q) /\ \A i \in 1..Len(p) : p[i] = q[i]
+\* each element a one-octet character string; the list follows a value octet and a name
+ListWire(l) == Concat([i \in 1..Len(l) |-> << 1, 64 + l[i] >>])
+ListRec(l) == [t |-> 1, c |-> 1, ow |-> EncLabel(<<97>>), rd |-> << 0 >> \o EncLabel(<<120>>) \o ListWire(l), spans |-> << << 1, 3 >> >>]
+DL(la, lb) == IsDup(ListRec(la), ListRec(lb))
+
+(* Mode "ext", header bits.  The TTL travels as two 16-bit limbs << hi, lo >>. *)
+FlipBit(v, k) == IF (v \div Pow2(k)) % 2 = 1 THEN v - Pow2(k) ELSE v + Pow2(k)
+FlipTtl(tt, k) == IF k < 16 THEN << tt[1], FlipBit(tt[2], k) >> ELSE << FlipBit(tt[1], k - 16), tt[2] >>
+ClassBases == {0, 1, 3, 4, 254, 255, 32769, 65535}      \* reserved, IN, CH, HS, NONE, ANY, IN with the top bit set, all ones
+TypeBases  == {1, 28, 255, 65280, 65535}
+TtlBases   == { <<0, 0>>, <<0, 3600>>, <<32767, 65535>>, <<65535, 65535>> }
+HdrRec(t, c, tt) == [t |-> t, c |-> c, ttl |-> tt, ow |-> EncLabel(<<97>>), rd |-> << 0 >> \o EncLabel(<<120>>), spans |-> << << 1, 3 >> >>]
+HdrCases == { << "class", c, k >> : c \in ClassBases, k \in 0..15 } \cup { << "type", t, k >> : t \in TypeBases, k \in 0..15 }
+            \cup { << "ttl", tt, k >> : tt \in TtlBases, k \in 0..31 }
+HdrA(h) == CASE h[1] = "class" -> HdrRec(1, h[2], <<0, 3600>>) [] h[1] = "type" -> HdrRec(h[2], 1, <<0, 3600>>) [] OTHER -> HdrRec(1, 1, h[2])
+HdrB(h) == CASE h[1] = "class" -> HdrRec(1, FlipBit(h[2], h[3]), <<0, 3600>>) [] h[1] = "type" -> HdrRec(FlipBit(h[2], h[3]), 1, <<0, 3600>>)
+             [] OTHER -> HdrRec(1, 1, FlipTtl(h[2], h[3]))
+
 Init == \/ Mode = "pairs"   /\ \E a \in Recs, b \in Recs : x = << a, b, a >>
         \/ Mode = "triples" /\ x \in SmallRecs \X SmallRecs \X SmallRecs
         \/ Mode = "lists"   /\ \E q \in UNION { [1..k -> 1..Len(Sym)] : k \in 0..MaxList }, sh \in 1..Len(Shapes) : x = << q, sh >>
+        \/ Mode = "ext"     /\ \/ \E n \in 1..3 : \E la \in LVars(n), lb \in LVars(n), lc \in LVars(n) : x = << "lens", la, lb, lc >>
+                                \/ \E h \in HdrCases : x = << "hdr", h >>
 Next == UNCHANGED x
 
 SameBut(a, b, flds) == \A f \in DOMAIN a : f \in flds \/ a[f] = b[f]
@@ -64,6 +103,22 @@ Equivalence ==
     /\ (a.t # b.t \/ a.c # b.c \/ a.v # b.v \/ Lower(a.o) # Lower(b.o) \/ Lower(a.n) # Lower(b.n) => ~D(a, b))
     \* lower-casing touches names only: the value octet 65..90 would be changed by a careless Lower(rd)
     /\ LET w == [ToWire(a) EXCEPT !.rd = << 65 >> \o EncLabel(a.n) \o << 90 >>] IN Key(w)[4][1] = 65 /\ Key(w)[4][Len(w.rd)] = 90
+
+ExtProps ==
+  Mode = "ext" =>
+    IF x[1] = "lens" THEN
+      LET la == x[2]  lb == x[3]  lc == x[4] IN
+      /\ WFWire(ListRec(la))
+      /\ DL(la, la) /\ (DL(la, lb) <=> DL(lb, la)) /\ (DL(la, lb) /\ DL(lb, lc) => DL(la, lc))
+      /\ (DL(la, lb) <=> la = lb)
+      /\ (IsProperPrefix(la, lb) => ~DL(la, lb) /\ ~DL(lb, la))           \* the shorter list first, and the longer list first
+      /\ (Len(la) # Len(lb) => ~DL(la, lb))
+    ELSE
+      LET h == x[2]  a == HdrA(h)  b == HdrB(h) IN
+      /\ WFWire(a) /\ WFWire(b)
+      /\ (h[1] \in {"class", "type"} => ~IsDup(a, b) /\ ~IsDup(b, a) /\ (a.c # b.c \/ a.t # b.t))   \* any one bit, the most significant included
+      /\ (h[1] = "ttl" => IsDup(a, b) /\ IsDup(b, a) /\ a.ttl # b.ttl)
+      /\ \A f \in {"t", "c"} : a[f] \in 0..65535 /\ b[f] \in 0..65535
 
 IsSubseq(s, l) == \A k \in 1..(Len(s) - 1) : s[k].i < s[k + 1].i
 DedupProps ==
